@@ -24,6 +24,11 @@ class ConclusionSelector(LogicalOperator, ABC):
     concluded_before: Dict[bool, SeenSet] = field(default_factory=lambda: {True: SeenSet(), False: SeenSet()},
                                                   init=False)
 
+    def _caching_enabled_(self) -> bool:
+        # which conclusions apply to a row is a side effect of evaluating the operands (their _conclusion_ and
+        # _is_false_), which a row served from a result cache does not have.
+        return False
+
     def update_conclusion(self, output: Dict[int, HashedValue], conclusions: typing.Set[Conclusion]) -> None:
         if not conclusions:
             return
@@ -107,7 +112,7 @@ class ExceptIf(ConclusionSelector):
                         yield left_value
                 continue
 
-            if is_caching_enabled() and self.right_cache.check(left_value):
+            if self._caching_enabled_() and self.right_cache.check(left_value):
                 yield from self.yield_final_output_from_cache(left_value, self.right_cache)
                 continue
 
